@@ -358,6 +358,16 @@ func classSig(items []item) string {
 	return strings.Join(parts, "+")
 }
 
+var decoyPermit, decoyForbid = mustPolicy("permit(principal, action, resource);"), mustPolicy("forbid(principal, action, resource);")
+
+func mustPolicy(src string) *cedar.Policy {
+	var p cedar.Policy
+	if err := p.UnmarshalCedar([]byte(src)); err != nil {
+		panic(err)
+	}
+	return &p
+}
+
 func checkSeq(t *core.T, items []item) {
 	b := build(items)
 	in := func(seam string) string { return seam + ": " + b.doc }
@@ -394,6 +404,42 @@ func checkSeq(t *core.T, items []item) {
 		}
 		dec, diag = cedar.Authorize(ps, entities, request)
 		cmp("Authorize(PolicySet) again after another request", dec, diag)
+	}
+	// the same contents reached through a history of the container: every id first holds a
+	// satisfied policy of the opposite effect, the set answers a request (cold variant: it does
+	// not), every id is replaced by its real policy, a further satisfied policy of each effect
+	// is added, used and removed again. The answer depends on the current contents only.
+	for _, warm := range []bool{false, true} {
+		h := cedar.NewPolicySet()
+		for i, id := range b.ids {
+			d := decoyPermit
+			if !items[i].forbid {
+				d = decoyForbid
+			}
+			h.Add(cedar.PolicyID(id), d)
+		}
+		if warm {
+			cedar.Authorize(h, entities, request)
+			h.IsAuthorized(entities, request2)
+		}
+		for _, id := range b.ids {
+			h.Add(cedar.PolicyID(id), ps.Get(cedar.PolicyID(id)))
+		}
+		seam := "Authorize(PolicySet built by replacing every id, cold)"
+		if warm {
+			seam = "Authorize(PolicySet built by replacing every id after it answered a request)"
+		}
+		dec, diag = cedar.Authorize(h, entities, request)
+		cmp(seam, dec, diag)
+		h.Add("zz-extra-forbid", decoyForbid)
+		h.Add("zz-extra-permit", decoyPermit)
+		if warm {
+			cedar.Authorize(h, entities, request)
+		}
+		h.Remove("zz-extra-forbid")
+		h.Remove("zz-extra-permit")
+		dec, diag = cedar.Authorize(h, entities, request)
+		cmp(seam+" then add+remove of two more", dec, diag)
 	}
 	// the same document read statement by statement through the streaming Decoder: all
 	// policies are decoded first and authorized afterwards
